@@ -66,6 +66,8 @@ class RGen:
             k = 14  # (version 3: calls to model-local functions twice as often)
         if k in (17, 18):
             k = 15
+        if self.gen >= 7 and depth in (1, 2) and t.pick(3) == 0:
+            k = 12  # (version 7: inside a nested graph every third node is a further If, so that three levels are common)
         F23 = lambda: self.pick_kind(pool, "F23")
         a = F23()
         if a is None:
@@ -198,9 +200,10 @@ class RGen:
             return [(out, "F23")] + ([(outs[1], "F3"), (outs[2], "F3")] if tm else [])
         if k == 11:
             return self.constant(nodes)
-        if k == 12 and depth < 2:
+        # version 7: a third level of nesting (versions up to 6 stop at two and are frozen)
+        if k == 12 and depth < (3 if self.gen >= 7 else 2):
             return self.if_node(nodes, pool, depth)
-        if k == 13 and depth < 2:
+        if k == 13 and depth < (3 if self.gen >= 7 else 2):
             return self.loop_node(nodes, pool, depth)
         if k == 14 and self.fn_sigs:
             return self.call(nodes, pool)
